@@ -29,7 +29,7 @@ impl GetIter {
         })
     }
     /// Verification hook: (start oid, next oid, max repetitions) as raw BER contents
-    #[cfg(gufo_snmp_verif)]
+    #[cfg(all(gufo_snmp_verif, not(gufo_snmp_verif_nostate)))]
     fn verif_state(&self) -> PyResult<(Vec<u8>, Vec<u8>, i64)> {
         Ok((
             self.start_oid.clone(),
